@@ -66,6 +66,8 @@ def gen_cases(tier, seed):
                 layers.append(dict(base, range=[edges[j + 1], edges[j]], above=1.0 if j == 0 else None, below=None))
             c.update(ice={"kind": "layered", "layers": layers, "above": 1.0, "below": None}, full=dict(base, range=[zlo, 0.0], above=1.0, below=None))
             rho = float(10 ** rng.uniform(0.5, 3))
+        if rng.random() < 0.12:
+            rho = 0.0           # exactly vertically aligned endpoints
         a = [float(rng.uniform(-1e3, 1e3)), float(rng.uniform(-1e3, 1e3)), float(rng.uniform(zlo + 1, -1))]
         b = [a[0] + rho * np.cos(ph), a[1] + rho * np.sin(ph), float(rng.uniform(zlo + 1, -1))]
         c.update({"from": a, "to": b})
